@@ -628,4 +628,363 @@ Section CBLDMProofs.
     - rewrite Forall_map. apply Forall_forall. intros q _. rewrite sum_diff_abs. lia.
   Qed.
 
+  (** ** Big-step view of [cb_part].  [strict = true]: the fuel never runs out. *)
+  Section Run.
+    Variables (n : nat) (d : Z) (limit : option nat).
+
+    Inductive cb_run (strict : bool) : list subp -> state -> state -> Prop :=
+    | R_stop subs st : stop limit (tick st) = true -> cb_run strict subs st (tick st)
+    | R_nil st : stop limit (tick st) = false -> cb_run strict [] st (tick st)
+    | R_leaf p st : stop limit (tick st) = false -> cb_run strict [p] st (leaf_step d p (tick st))
+    | R_prune subs st : (2 <= length subs)%nat -> stop limit (tick st) = false ->
+        pruned d subs (tick st) = true -> cb_run strict subs st (tick st)
+    | R_node subs st a b rest st1 st2 : (2 <= length subs)%nat -> stop limit (tick st) = false ->
+        pruned d subs (tick st) = false -> reorder n subs = a :: b :: rest ->
+        cb_run strict (rest ++ [mk_split a b]) (tick st) st1 ->
+        cb_run strict (rest ++ [mk_comb a b]) st1 st2 ->
+        cb_run strict subs st st2
+    | R_nofuel subs st : strict = false -> (2 <= length subs)%nat -> stop limit (tick st) = false ->
+        pruned d subs (tick st) = false -> cb_run strict subs st (tick st).
+
+    Lemma cb_run_lax strict subs st st' : cb_run strict subs st st' -> cb_run false subs st st'.
+    Proof.
+      induction 1 as [subs st H|st H|p st H|subs st Hl H Hp|subs st a b rest st1 st2 Hl H Hp E _ IH1 _ IH2|subs st _ Hl H Hp].
+      - apply R_stop; assumption.
+      - apply R_nil; assumption.
+      - apply R_leaf; assumption.
+      - apply R_prune; assumption.
+      - eapply R_node; eassumption.
+      - apply R_nofuel; auto.
+    Qed.
+
+    Lemma cb_part_run_gen strict fuel : forall subs st,
+      (strict = true -> (length subs <= S fuel)%nat) ->
+      cb_run strict subs st (cb_part n d limit fuel subs st).
+    Proof.
+      induction fuel as [|f IH]; intros subs st Hf; rewrite cb_part_unfold.
+      - destruct (stop limit (tick st)) eqn:Es; [apply R_stop; exact Es|].
+        destruct subs as [|p [|q r]]; [apply R_nil; exact Es|apply R_leaf; exact Es|].
+        destruct (pruned d (p :: q :: r) (tick st)) eqn:Ep; [apply R_prune; simpl; auto; lia|].
+        destruct strict; [specialize (Hf eq_refl); simpl in Hf; lia|].
+        apply R_nofuel; simpl; auto; lia.
+      - destruct (stop limit (tick st)) eqn:Es; [apply R_stop; exact Es|].
+        destruct subs as [|p [|q r]]; [apply R_nil; exact Es|apply R_leaf; exact Es|].
+        destruct (pruned d (p :: q :: r) (tick st)) eqn:Ep; [apply R_prune; simpl; auto; lia|].
+        pose proof (reorder_length n (p :: q :: r)) as Hr.
+        destruct (reorder n (p :: q :: r)) as [|a [|b rest]] eqn:E; simpl in Hr; try lia.
+        eapply R_node; [simpl; lia|exact Es|exact Ep|exact E| |].
+        + apply IH. intros Hs. specialize (Hf Hs). simpl in Hf. rewrite app_length. simpl. lia.
+        + apply IH. intros Hs. specialize (Hf Hs). simpl in Hf. rewrite app_length. simpl. lia.
+    Qed.
+
+    Lemma cb_part_run fuel subs st : (length subs <= S fuel)%nat ->
+      cb_run true subs st (cb_part n d limit fuel subs st).
+    Proof. intros H. apply cb_part_run_gen. intros _. exact H. Qed.
+
+    Lemma cb_part_run_lax fuel subs st : cb_run false subs st (cb_part n d limit fuel subs st).
+    Proof. apply cb_part_run_gen. intros H. discriminate H. Qed.
+
+    (** *** state invariants *)
+    (** incumbent and its recorded gap agree; the optimality flag means gap 0 *)
+    Definition coherent (st : state) : Prop :=
+      match cb_best st, cb_delta st with
+      | None, None => cb_opt st = false
+      | Some p, Some v => v = sum_diff p /\ (cb_opt st = true -> v = 0)
+      | _, _ => False
+      end.
+
+    Definition delta_le (a b : option Z) : Prop :=
+      match a, b with
+      | _, None => True
+      | Some x, Some y => x <= y
+      | None, Some _ => False
+      end.
+    Definition delta_lt (a b : option Z) : Prop :=
+      match a, b with
+      | Some x, None => True
+      | Some x, Some y => x < y
+      | None, _ => False
+      end.
+
+    Lemma delta_le_refl a : delta_le a a.
+    Proof. destruct a; simpl; lia. Qed.
+    Lemma delta_le_trans a b c : delta_le a b -> delta_le b c -> delta_le a c.
+    Proof. destruct a, b, c; simpl; try lia; tauto. Qed.
+    Lemma delta_lt_trans a b c : delta_lt a b -> delta_lt b c -> delta_lt a c.
+    Proof. destruct a, b, c; simpl; try lia; tauto. Qed.
+    Lemma delta_lt_le a b : delta_lt a b -> delta_le a b.
+    Proof. destruct a, b; simpl; try lia; tauto. Qed.
+
+    Lemma leaf_step_ticks p st : cb_ticks (leaf_step d p st) = cb_ticks st.
+    Proof. unfold leaf_step. destruct (_ && _); reflexivity. Qed.
+
+    Lemma leaf_step_coherent p st : coherent st -> coherent (leaf_step d p st).
+    Proof.
+      intros H. unfold leaf_step. destruct (_ && _); [|exact H].
+      unfold coherent. simpl. split; [reflexivity|]. intros E. lia.
+    Qed.
+
+    (** a step either leaves the incumbent alone or strictly improves it *)
+    Definition unchanged_or_better (st st' : state) : Prop :=
+      (cb_best st' = cb_best st /\ cb_delta st' = cb_delta st /\ cb_opt st' = cb_opt st) \/
+      delta_lt (cb_delta st') (cb_delta st).
+
+    Lemma leaf_step_mono p st : unchanged_or_better st (leaf_step d p st).
+    Proof.
+      unfold leaf_step. destruct (len_diff p <=? d); cbn [andb]; [|left; auto].
+      destruct (lt_delta (sum_diff p) (cb_delta st)) eqn:E; [|left; auto].
+      right. simpl. unfold lt_delta in E. destruct (cb_delta st); simpl; [lia|exact I].
+    Qed.
+
+    Lemma uob_trans st st1 st2 : unchanged_or_better st st1 -> unchanged_or_better st1 st2 ->
+      unchanged_or_better st st2.
+    Proof.
+      intros [(E1 & E2 & E3)|H1] [(F1 & F2 & F3)|H2].
+      - left. repeat split; congruence.
+      - right. rewrite <- E2. exact H2.
+      - right. rewrite F2. exact H1.
+      - right. eapply delta_lt_trans; eassumption.
+    Qed.
+
+    Lemma run_ticks strict subs st st' : cb_run strict subs st st' -> (cb_ticks st < cb_ticks st')%nat.
+    Proof.
+      induction 1 as [subs st H|st H|p st H|subs st Hl H Hp|subs st a b rest st1 st2 Hl H Hp E _ IH1 _ IH2|subs st _ Hl H Hp];
+        try (simpl; lia).
+      - rewrite leaf_step_ticks. simpl. lia.
+      - simpl in IH1. lia.
+    Qed.
+
+    Lemma run_coherent strict subs st st' : cb_run strict subs st st' -> coherent st -> coherent st'.
+    Proof.
+      induction 1 as [subs st H|st H|p st H|subs st Hl H Hp|subs st a b rest st1 st2 Hl H Hp E _ IH1 _ IH2|subs st _ Hl H Hp];
+        intros Hc; auto.
+      apply leaf_step_coherent. exact Hc.
+    Qed.
+
+    Lemma run_mono strict subs st st' : cb_run strict subs st st' -> unchanged_or_better st st'.
+    Proof.
+      induction 1 as [subs st H|st H|p st H|subs st Hl H Hp|subs st a b rest st1 st2 Hl H Hp E _ IH1 _ IH2|subs st _ Hl H Hp];
+        try (left; repeat split; reflexivity).
+      - apply (uob_trans st (tick st)); [left; repeat split; reflexivity|apply leaf_step_mono].
+      - apply (uob_trans st (tick st)); [left; repeat split; reflexivity|].
+        eapply uob_trans; eassumption.
+    Qed.
+
+    Lemma uob_delta_le st st' : unchanged_or_better st st' -> delta_le (cb_delta st') (cb_delta st).
+    Proof. intros [(_ & E & _)|H]; [rewrite E; apply delta_le_refl|apply delta_lt_le; exact H]. Qed.
+
+    (** *** 2. safety: the incumbent is always a valid balanced partition *)
+    Definition best_ok (items : list A) (st : state) : Prop :=
+      forall p, cb_best st = Some p -> is_partition valueof 2 items p /\ len_diff p <= d.
+
+    Lemma run_safe items strict subs st st' : cb_run strict subs st st' ->
+      subs_ok items subs -> best_ok items st -> best_ok items st'.
+    Proof.
+      induction 1 as [subs st H|st H|p st H|subs st Hl H Hp|subs st a b rest st1 st2 Hl H Hp E _ IH1 _ IH2|subs st _ Hl H Hp];
+        intros Hs Hb; auto.
+      - unfold leaf_step. destruct (len_diff p <=? d) eqn:El; cbn [andb]; [|exact Hb].
+        destruct (lt_delta _ _); [|exact Hb]. intros q Hq. simpl in Hq. injection Hq as <-.
+        split; [apply subs_ok_leaf; exact Hs|lia].
+      - apply IH2; [eapply subs_ok_comb; eassumption|].
+        apply IH1; [eapply subs_ok_split; eassumption|exact Hb].
+    Qed.
+  End Run.
+
+  (** ** The root of the search *)
+  Definition init_subs (sorted : list A) : list subp :=
+    map (fun x => add_item valueof true (new_bins 2) x 1) sorted.
+  Definition init_state : state := mk_cb None None false O.
+
+  Lemma init_sub_eq x : add_item valueof true (new_bins 2) x 1 = [(0, []); (0 + valueof x, [x])].
+  Proof. reflexivity. Qed.
+
+  Lemma init_subs_ok items sorted : Permutation sorted items -> subs_ok items (init_subs sorted).
+  Proof.
+    intros P. split.
+    - unfold init_subs. rewrite Forall_map. apply Forall_forall. intros x _. split.
+      + rewrite add_item_length. apply new_bins_length.
+      + apply add_item_wf. apply new_bins_wf.
+    - rewrite <- P. clear P. unfold all_contents, init_subs. induction sorted as [|x t IH]; simpl; [reflexivity|].
+      apply perm_skip. exact IH.
+  Qed.
+
+  Lemma init_subs_gauge sorted : Forall (fun g => snd g = 1) (map gauge (init_subs sorted)).
+  Proof.
+    unfold init_subs. rewrite !Forall_map. apply Forall_forall. intros x _. reflexivity.
+  Qed.
+
+  Lemma init_subs_sorted sorted : Forall (fun x => 0 <= valueof x) sorted ->
+    Forall (fun s => 0 <= ssum s) (init_subs sorted).
+  Proof.
+    intros H. unfold init_subs. rewrite Forall_map. eapply Forall_impl; [|exact H].
+    intros x Hx. cbv beta in Hx |- *. rewrite init_sub_eq. unfold ssum, bin_at. cbn [nth fst]. lia.
+  Qed.
+
+  Lemma init_state_coherent : coherent init_state.
+  Proof. reflexivity. Qed.
+
+  (** a leaf with count gap at most 1 exists below any root of singletons *)
+  Lemma root_balanced_leaf n sorted : sorted <> [] ->
+    exists p, leaf_below n (init_subs sorted) p /\ len_diff p <= 1.
+  Proof.
+    intros Hne. destruct (SC_ones _ (init_subs_gauge sorted)) as (v & w & H & Hw).
+    assert (Hl : exists m, length (init_subs sorted) = S m).
+    { unfold init_subs. rewrite map_length. destruct sorted as [|x t]; [congruence|]. exists (length t). reflexivity. }
+    destruct Hl as [m Hl]. destruct (SC_leaf n m _ v w Hl H) as (p & Hp & Hg).
+    exists p. split; [exact Hp|]. rewrite len_diff_abs. unfold gauge in Hg.
+    destruct Hg as [Hg|Hg]; injection Hg as _ E; lia.
+  Qed.
+
+  (** ** 2. Safety at every interruption point (C11, C12) *)
+  Theorem cbldm_safe_gen : forall k items tl d dint limit out t,
+    cbldm valueof k items tl d dint limit = Ok (out, t) ->
+    out = CbPlaceholder \/
+    exists b, out = CbBins b /\ is_partition valueof 2 items b /\ len_diff b <= d.
+  Proof.
+    intros k items tl d dint limit out t H. unfold cbldm in H.
+    destruct (negb (Nat.eqb k 2)); [discriminate H|].
+    destruct (negb tl); [discriminate H|].
+    destruct ((d <? 1) || negb dint); [discriminate H|].
+    destruct (last_opt (sort_desc valueof items)) as [l|]; [|discriminate H].
+    destruct (valueof l <? 0); [discriminate H|].
+    injection H as <- _.
+    fold (init_subs (sort_desc valueof items)). fold init_state.
+    set (st' := cb_part _ _ _ _ _ _).
+    assert (Hb : best_ok d items st').
+    { eapply run_safe; [apply cb_part_run_lax| |].
+      - apply init_subs_ok. apply sort_desc_perm.
+      - intros p Hp. discriminate Hp. }
+    destruct (cb_best st') as [b|] eqn:Eb; [right|left; reflexivity].
+    exists b. split; [reflexivity|]. apply Hb. exact Eb.
+  Qed.
+
+  Theorem cbldm_safe : forall items d limit out t,
+    Forall (fun x => 0 <= valueof x) items -> items <> [] -> 1 <= d ->
+    cbldm valueof 2 items true d true limit = Ok (out, t) ->
+    out = CbPlaceholder \/
+    exists b, out = CbBins b /\ is_partition valueof 2 items b /\ len_diff b <= d.
+  Proof. intros items d limit out t _ _ _ H. eapply cbldm_safe_gen. exact H. Qed.
+
+  (** ** 3a. The incumbent only improves *)
+  Lemma coherent_best st p : coherent st -> cb_best st = Some p -> cb_delta st = Some (sum_diff p).
+  Proof.
+    unfold coherent. intros H E. rewrite E in H. destruct (cb_delta st) as [v|]; [|destruct H].
+    destruct H as [-> _]. reflexivity.
+  Qed.
+
+  Lemma coherent_delta st v : coherent st -> cb_delta st = Some v ->
+    exists p, cb_best st = Some p /\ v = sum_diff p.
+  Proof.
+    unfold coherent. intros H E. rewrite E in H. destruct (cb_best st) as [p|]; [|destruct H].
+    exists p. split; [reflexivity|apply H].
+  Qed.
+
+  (** within any (sub-)run: the incumbent and its gap are untouched, or the gap has
+      strictly decreased; the recorded gap is the incumbent's gap *)
+  Theorem cbldm_delta_mono : forall n d limit fuel subs st,
+    coherent st ->
+    let st' := cb_part n d limit fuel subs st in
+    coherent st' /\ unchanged_or_better st st' /\
+    (forall p, cb_best st' = Some p -> cb_delta st' = Some (sum_diff p)).
+  Proof.
+    intros n d limit fuel subs st Hc st'.
+    pose proof (cb_part_run_lax n d limit fuel subs st) as R. fold st' in R.
+    assert (Hc' : coherent st') by (eapply run_coherent; eassumption).
+    split; [exact Hc'|]. split; [eapply run_mono; exact R|].
+    intros p. apply coherent_best. exact Hc'.
+  Qed.
+
+  Corollary cb_part_delta_le n d limit fuel (subs : list subp) (st : state) :
+    delta_le (cb_delta (cb_part n d limit fuel subs st)) (cb_delta st).
+  Proof. apply uob_delta_le. eapply run_mono. apply cb_part_run_lax. Qed.
+
+  (** ** 4. Completeness of the search without a limit: the final gap is at most the
+      gap of every feasible leaf of the tree *)
+  Lemma run_complete n d subs st st' : cb_run n d None true subs st st' -> coherent st ->
+    forall p, leaf_below n subs p -> len_diff p <= d ->
+    exists v, cb_delta st' = Some v /\ v <= sum_diff p.
+  Proof.
+    induction 1 as [subs st H|st H|q st H|subs st Hl H Hp|subs st a b rest st1 st2 Hl H Hp E R1 IH1 R2 IH2|subs st Hs Hl H Hp];
+      intros Hc p Hlf Hd.
+    - unfold stop in H. simpl in H. unfold coherent in Hc. rewrite H in Hc. simpl.
+      destruct (cb_best st) as [b|], (cb_delta st) as [v|]; try (destruct Hc; fail); try discriminate Hc.
+      exists v. split; [reflexivity|]. destruct Hc as [_ Hv]. rewrite (Hv eq_refl), sum_diff_abs. lia.
+    - exfalso. eapply leaf_below_nonempty; [exact Hlf|reflexivity].
+    - apply leaf_below_single in Hlf. subst q. unfold leaf_step.
+      destruct (len_diff p <=? d) eqn:El; [|lia]. cbn [andb].
+      destruct (lt_delta (sum_diff p) (cb_delta (tick st))) eqn:Elt.
+      + exists (sum_diff p). split; [reflexivity|lia].
+      + unfold lt_delta in Elt. destruct (cb_delta (tick st)) as [x|]; [|discriminate Elt].
+        exists x. split; [reflexivity|lia].
+    - unfold pruned in Hp. apply orb_true_iff in Hp. destruct Hp as [Hp|Hp].
+      + unfold ge_delta in Hp. destruct (cb_delta (tick st)) as [x|]; [|discriminate Hp].
+        exists x. split; [reflexivity|]. pose proof (sum_prune_sound n subs p Hlf). lia.
+      + pose proof (len_prune_sound n subs p Hlf). lia.
+    - inversion Hlf as [q|subs0 a' b' rest' p0 E' Hlf'|subs0 a' b' rest' p0 E' Hlf']; subst.
+      + simpl in Hl. lia.
+      + rewrite E in E'. injection E' as <- <- <-.
+        destruct (IH1 Hc p Hlf' Hd) as (v & Ev & Hv).
+        pose proof (uob_delta_le _ _ (run_mono _ _ _ _ _ _ _ R2)) as Hle. rewrite Ev in Hle.
+        destruct (cb_delta st2) as [v2|]; simpl in Hle; [|destruct Hle].
+        exists v2. split; [reflexivity|lia].
+      + rewrite E in E'. injection E' as <- <- <-.
+        apply (IH2 (run_coherent _ _ _ _ _ _ _ R1 Hc) p Hlf' Hd).
+    - discriminate Hs.
+  Qed.
+
+  Lemma cbldm_unfold_ok items d limit l :
+    1 <= d -> last_opt (sort_desc valueof items) = Some l -> 0 <= valueof l ->
+    cbldm valueof 2 items true d true limit =
+    let st := cb_part (length items) d limit (length items) (init_subs (sort_desc valueof items)) init_state in
+    Ok (match cb_best st with None => CbPlaceholder | Some b => CbBins b end, cb_ticks st).
+  Proof.
+    intros Hd El Hl. unfold cbldm. cbn [Nat.eqb negb]. destruct (d <? 1) eqn:Ed; [lia|]. cbn [orb].
+    rewrite El. destruct (valueof l <? 0) eqn:En; [lia|]. reflexivity.
+  Qed.
+
+  Lemma nonneg_last items : Forall (fun x => 0 <= valueof x) items -> items <> [] ->
+    exists l, last_opt (sort_desc valueof items) = Some l /\ 0 <= valueof l.
+  Proof.
+    intros Hnn Hne. destruct (last_opt (sort_desc valueof items)) as [l|] eqn:El.
+    - exists l. split; [reflexivity|]. destruct (sort_desc_last_min items l El) as [Hin _].
+      rewrite Forall_forall in Hnn. apply Hnn. exact Hin.
+    - exfalso. apply last_opt_nil_iff in El. apply Hne. apply Permutation_nil. rewrite <- El. apply sort_desc_perm.
+  Qed.
+
+  Lemma sort_desc_nonempty (items : list A) : items <> [] -> sort_desc valueof items <> [].
+  Proof.
+    intros Hne E. apply Hne. apply Permutation_nil. rewrite <- E. apply sort_desc_perm.
+  Qed.
+
+  (** without a limit the final gap is at most that of every feasible leaf *)
+  Theorem cbldm_leaf_optimal : forall items d,
+    Forall (fun x => 0 <= valueof x) items -> items <> [] -> 1 <= d ->
+    exists b t, cbldm valueof 2 items true d true None = Ok (CbBins b, t) /\
+      forall p, leaf_below (length items) (init_subs (sort_desc valueof items)) p ->
+                len_diff p <= d -> sum_diff b <= sum_diff p.
+  Proof.
+    intros items d Hnn Hne Hd. destruct (nonneg_last items Hnn Hne) as (l & El & Hl).
+    rewrite (cbldm_unfold_ok items d None l Hd El Hl). cbv zeta.
+    set (subs := init_subs (sort_desc valueof items)).
+    set (st' := cb_part _ _ _ _ _ _).
+    assert (R : cb_run (length items) d None true subs init_state st').
+    { apply cb_part_run. unfold subs, init_subs. rewrite map_length, sort_desc_length. lia. }
+    pose proof (run_coherent _ _ _ _ _ _ _ R init_state_coherent) as Hc'.
+    destruct (root_balanced_leaf (length items) (sort_desc valueof items) (sort_desc_nonempty items Hne)) as (p0 & Hp0 & Hd0).
+    destruct (run_complete _ _ _ _ _ R init_state_coherent p0 Hp0) as (v0 & Ev0 & _); [lia|].
+    destruct (coherent_delta _ _ Hc' Ev0) as (b & Eb & _).
+    exists b, (cb_ticks st'). rewrite Eb. split; [reflexivity|].
+    intros p Hp Hdp. destruct (run_complete _ _ _ _ _ R init_state_coherent p Hp Hdp) as (v & Ev & Hv).
+    rewrite (coherent_best _ _ Hc' Eb) in Ev. injection Ev as <-. exact Hv.
+  Qed.
+
+  (** 4. never a missing result without a limit (C01/C12) *)
+  Theorem cbldm_total : forall items d,
+    Forall (fun x => 0 <= valueof x) items -> items <> [] -> 1 <= d ->
+    exists b t, cbldm valueof 2 items true d true None = Ok (CbBins b, t).
+  Proof.
+    intros items d Hnn Hne Hd. destruct (cbldm_leaf_optimal items d Hnn Hne Hd) as (b & t & E & _).
+    exists b, t. exact E.
+  Qed.
+
 End CBLDMProofs.
